@@ -317,6 +317,20 @@ def configs(tier):
                 for size in range(1, ngp // 2 + 1):
                     for rnd in (False, True):
                         out.append(dict(base, gen='sets_of_k_pattern', size=size, random=rnd))
+    # group counts that leave a remainder larger than the number of folds (11 groups of size 4 -> 2 folds and
+    # 3 surplus groups; 14 of size 5 -> 2 folds and 4 surplus): every group is still tested exactly once
+    for n, k in ((11, 4), (14, 5), (7, 3)):
+        for rnd in (False, True):
+            out.append({'n_rdm': 2, 'n_cond': n, 'rdm_desc': 'index', 'rdm_groups': None, 'pat_desc': 'index',
+                        'pat_groups': None, 'cids': None, 'gen': 'sets_of_k_pattern', 'size': k, 'random': rnd})
+            out.append({'n_rdm': n, 'n_cond': 4, 'rdm_desc': 'index', 'rdm_groups': None, 'pat_desc': 'index',
+                        'pat_groups': None, 'gen': 'sets_of_k_rdm', 'size': k, 'random': rnd})
+            out.append({'n_rdm': 2, 'n_cond': n, 'rdm_desc': 'index', 'rdm_groups': None, 'pat_desc': 'index',
+                        'pat_groups': None, 'cids': None, 'gen': 'sets_k_fold_pattern', 'k_pattern': k, 'random': rnd})
+            out.append({'n_rdm': n, 'n_cond': 4, 'rdm_desc': 'index', 'rdm_groups': None, 'pat_desc': 'index',
+                        'pat_groups': None, 'gen': 'sets_k_fold_rdm', 'k_rdm': k, 'random': rnd})
+            out.append({'n_rdm': n, 'n_cond': 4, 'rdm_desc': 'index', 'rdm_groups': None, 'pat_desc': 'index',
+                        'pat_groups': None, 'cids': None, 'gen': 'sets_k_fold', 'k_rdm': k, 'k_pattern': 1, 'random': rnd})
     # both factors
     for n_rdm, n_cond in ([(2, 3), (3, 4)] + ([(4, 4), (4, 5), (5, 6)] if big else [])):
         for rd, rg in _rdm_groupings(n_rdm, tier)[:3]:
@@ -469,8 +483,12 @@ def _run_cv(cfg, choices, delta_entry, fitter, seed):
         train_set, test_set, ceil_set = call_generator(cfg, data)
     ids = [(selfdesc.read_ids(tr[0]), selfdesc.read_ids(te[0])) for tr, te in zip(train_set, test_set)]
     model = _model(cfg['n_cond'], seed, cfg.get('pat_groups'))
+    # a second (fixed) model next to the fitted one: the score table has a model and a fold axis, and the
+    # row of the fitted model must be ITS scores, fold by fold
+    from rsatoolbox.model import ModelFixed
+    fixed = ModelFixed('f', model.rdm_obj[1])
     with np.errstate(all='ignore'):
-        res = crossval([model], data, train_set, test_set, ceil_set=None, method='cosine', fitter=fitter,
+        res = crossval([model, fixed], data, train_set, test_set, ceil_set=None, method='cosine', fitter=[fitter, None],
                        pattern_descriptor=cfg['pat_desc'], calc_noise_ceil=False)
     return list(fitter.calls), np.array(res.evaluations[0, 0]), ids
 
